@@ -65,7 +65,8 @@ def _ip(s):
     return list(ipaddress.ip_address(s).packed)
 
 
-CONSOLE_RE = re.compile(r"^\d+\.\d+$")
+# the timestamp's format is not pinned by the statements: any non-empty token without blanks that holds a digit
+CONSOLE_RE = re.compile(r"^[^\s=\"]*\d[^\s=\"]*$")
 LAYERS = {"eth", "arp", "ipv4", "ipv6", "icmpv4", "icmpv6", "tcp", "udp"}
 TAIL_FIELDS = {"eth": 1, "ipv4": 1, "ipv6": 1, "icmpv4": 2, "icmpv6": 2, "tcp": 3, "udp": 1}
 
